@@ -325,3 +325,7 @@ PROPS['C05'] = dict(
     bounds='<= 3 honest + 2 sacrificial sessions, <= 24 hostile steps, <= 40 virtual s', trusted_base=TB_SIM,
     assumptions=AS_SIM + ['uninitialised reads are not detectable (no MSan-instrumented C++ runtime here)'],
 )
+
+PROPS['C05']['fuzz'] = dict(bin='c05f', quick=dict(workers=4, seconds=30, max_len=3000), thorough=dict(workers=8, seconds=900, max_len=4096))
+PROPS['C05']['quick']['workers'] = 6
+PROPS['C05']['technique'] = 'property-based testing (rapidcheck over choice tapes) and coverage-guided fuzzing (libFuzzer, structure-aware: bytes -> choice tape) of the same case function with the oracle inside'
